@@ -1426,6 +1426,10 @@ def codec_boundaries(run):
             cases.append(('array:len%d' % n, [1] * n, [1] * n))
             cases.append(('map:len%d' % n, {i: None for i in range(n)}, {i: None for i in range(n)}))
         cases.append(('str:non-ascii', 'naïve € \U0001f600', 'naïve € \U0001f600'))
+        # strings whose character count and UTF-8 byte count lie on different sides of a format boundary
+        for ch, counts in (('\u00e9', (15, 16, 20, 31, 127, 128, 255, 32767, 32768)), ('\u20ac', (10, 11, 31, 85, 86, 21845, 21846)), ('\U0001f600', (7, 8, 63, 64))):
+            for k in counts:
+                cases.append(('str:%d-chars-of-U+%04X' % (k, ord(ch)), ch * k, ch * k))
         cases.append(('nested', {'k': [1, {'z': (2, 3)}, b'b'], 5: None}, {'k': [1, {'z': (2, 3)}, b'b'], 5: None}))
         for label, v, rv in cases:
             if isinstance(v, tuple) and v and v[0] == 'ext':
